@@ -234,6 +234,12 @@ func cmdCheck(args []string) int {
 	extraObls, extraUnits := e.propertyExtras(prop, *only)
 	obls = append(obls, extraObls...)
 	units = append(units, extraUnits...)
+	for _, u := range extraUnits {
+		// guarded-by scan: the function is checked for its guarded accesses only (no functional contract implied)
+		if i := strings.Index(u.Name, "::guards/"); i >= 0 {
+			funcs = append(funcs, "guarded-accesses-only: "+shortPkg(u.Name[:i])+"."+u.Name[i+9:])
+		}
+	}
 
 	// obligations of some kinds belong to specific properties only
 	{
